@@ -31,11 +31,11 @@ def convolve_model_dir_monochromatic(model_dir, overwrite=False, max_ram=8,
     max_ram : float, optional
         The maximum amount of RAM that can be used (in Gb)
     wav_min : float, optional
-        The minimum wavelength to consider. Only wavelengths above this value
-        will be output.
+        The minimum wavelength to consider. Only wavelengths greater than or
+        equal to this value will be output.
     wav_max : float, optional
-        The maximum wavelength to consider. Only wavelengths below this value
-        will be output.
+        The maximum wavelength to consider. Only wavelengths smaller than or
+        equal to this value will be output.
     """
 
     modpar = parfile.read(os.path.join(model_dir, 'models.conf'), 'conf')
@@ -84,9 +84,10 @@ def convolve_model_dir_monochromatic(model_dir, overwrite=False, max_ram=8,
 
     # Figure out range of wavelength indices to use
     # (wavelengths array is sorted in reverse order)
-    jlo = n_wav - 1 - (wavelengths[::-1].searchsorted(wav_max) - 1)
+    # (both ends of the window are inclusive; an empty window writes no files)
+    jlo = n_wav - 1 - (wavelengths[::-1].searchsorted(wav_max, side='right') - 1)
     jhi = n_wav - 1 - wavelengths[::-1].searchsorted(wav_min)
-    chunk_size = min(chunk_size, jhi - jlo + 1)
+    chunk_size = max(1, min(chunk_size, jhi - jlo + 1))
 
     # Loop over wavelength chunks
     for jmin in range(jlo, jhi + 1, chunk_size):
